@@ -20,8 +20,12 @@ NOT_DECIDED = ["that every conceivable misuse has a rule", "that no valid input 
 
 
 def const_kind_bool(ev, call):
-    a0 = ev.eval(call["args"][0], {})
-    a1 = ev.eval(call["args"][1], {})
+    from ..pe import Unsupported
+    try:
+        a0 = ev.eval(call["args"][0], {})
+        a1 = ev.eval(call["args"][1], {})
+    except Unsupported:
+        raise Inconclusive("non-constant (kind, fallible): " + render(call))
     if not isinstance(a0, Tag) or not isinstance(a1, bool):
         raise Inconclusive("non-constant (kind, fallible): " + render(call))
     return a0.name, a1
@@ -32,26 +36,42 @@ def r1(chk):
     chk.rule("R1", "dispatch completeness: validate_struct_attrs x12 with matching flag, validate_ghost_attrs x6, both by-kind lists 12 entries with equal kinds", floor=40)
     fi = repo.fn(VALIDATE, "validate")
     ev = Evaluator(repo, IMPL_FILES)
-    seen = {}
-    for c in calls(fi.body, "validate_struct_attrs"):
-        it = c["args"][0]
-        if it["k"] != "MethodCall" or it["method"] not in ("iter_for_kind_core", "iter_for_kind"):
-            chk.bad("R1", "validate_struct_attrs/arg", VALIDATE, c["line"], "first argument is not a per-(kind,fallible) iterator", found=render(it)[:80])
-            continue
-        k, f = const_kind_bool(ev, it)
-        flag = ev.eval(c["args"][1], {})
-        seen[(k, f)] = seen.get((k, f), 0) + 1
-        chk.expect("R1", f"validate_struct_attrs[{k},{f}]/flag", flag == f, VALIDATE, c["line"], "fallible flag passed differs from the instructions filtered", expected=f, found=flag)
+    # the calls `validate` performs, read off its partial evaluation (validators opaque, loops over constant tables run concretely):
+    # independent of whether the twelve dispatches are written out or looped over a table
+    from ..pe import explore
+    names = {f.name for f in repo.fns(VALIDATE)} - {"validate"}
+
+    def mk():
+        e = Evaluator(repo, IMPL_FILES, opaque=names | {"iter_for_kind_core", "iter_for_kind", "get_attrs", "get_members"})
+        e.concrete_iters = True
+        return e
+    leaves = [lf for lf in explore(mk, lambda e: e.run_fn(fi, e.sym_params(fi))) if not lf.unsupported and not lf.panic]
+    if not leaves:
+        raise Inconclusive("validate is not evaluable")
+    chk.unit("validate_leaves", len(leaves))
+    calls_ = [e[1] for e in leaves[0].effects if e[0] == "summary"]
+    common = [c for c in calls_ if all(any(e[0] == "summary" and e[1] == c for e in lf.effects) for lf in leaves)]
+    seen, flags = {}, {}
+    for c in common:
+        m = re.match(r"validate_struct_attrs\(.*?\.iter_for_kind(?:_core)?\((\w+), (true|false)\), ([^,]+),", c)
+        if m:
+            kf = (m.group(1), m.group(2) == "true")
+            seen[kf] = seen.get(kf, 0) + 1
+            flags[kf] = m.group(3)
+    if not seen:
+        raise Inconclusive("no validate_struct_attrs(<attrs>.iter_for_kind_core(K, f), ..) dispatch recognised in validate's evaluation: " + str(common[:3])[:160])
+    for (k, f), flag in flags.items():
+        chk.expect("R1", f"validate_struct_attrs[{k},{f}]/flag", flag == ("true" if f else "false"), VALIDATE, fi.line, "fallible flag passed differs from the instructions filtered", expected=f, found=flag)
     for k in kinds(repo):
         for f in (False, True):
             chk.expect("R1", f"validate_struct_attrs[{k},{f}]", seen.get((k, f), 0) == 1, VALIDATE, fi.line, "trait-instruction rules not dispatched exactly once for this conversion", found=seen.get((k, f), 0))
     gs = {}
-    for c in calls(fi.body, "validate_ghost_attrs"):
-        k = ev.eval(c["args"][0], {})
-        src = render(c["args"][1]).replace(" ", "")
-        gs[k.name if isinstance(k, Tag) else "?"] = src
+    for c in common:
+        m = re.match(r"validate_ghost_attrs\((\w+), ([^,]+),", c)
+        if m:
+            gs[m.group(1)] = m.group(2)
     for k in kinds(repo):
-        chk.expect("R1", f"validate_ghost_attrs[{k}]", gs.get(k) == "&attrs.ghosts_attrs", VALIDATE, fi.line, "ghosts rules not dispatched for this kind over all ghosts instructions", found=gs.get(k))
+        chk.expect("R1", f"validate_ghost_attrs[{k}]", gs.get(k, "").endswith(".ghosts_attrs"), VALIDATE, fi.line, "ghosts rules not dispatched for this kind over all ghosts instructions", found=gs.get(k))
     # by-kind lists
     for fn_name in ("validate", "validate_variant_fields"):
         fn = repo.fn(VALIDATE, fn_name)
@@ -62,17 +82,25 @@ def r1(chk):
                 body = m["args"][0]["body"]
                 if body["k"] != "Tuple" or len(body["elems"]) != 2:
                     continue
-                k, f = const_kind_bool(ev, r)
-                k2 = ev.eval(body["elems"][1], {})
+                try:
+                    k, f = const_kind_bool(ev, r)
+                    k2 = ev.eval(body["elems"][1], {})
+                except Exception:
+                    ent = {}
+                    break
                 ent[(k, f)] = ent.get((k, f), 0) + 1
                 chk.expect("R1", f"{fn_name}/by-kind[{k},{f}]/pair", isinstance(k2, Tag) and k2.name == k, VALIDATE, m["line"], "instruction list entry is labelled with another kind than it was filtered by",
                            expected=k, found=vkey(k2))
+        if not ent:
+            chk.inconc("R1", f"{fn_name}/by-kind: the per-kind instruction list is not built by the recognised iter_for_kind(..).map(|x| (x, Kind)) chain")
+            continue
         for k in kinds(repo):
             for f in (False, True):
                 chk.expect("R1", f"{fn_name}/by-kind[{k},{f}]", ent.get((k, f), 0) == 1, VALIDATE, fn.line, "conversion missing from the per-kind list the member rules iterate over", found=ent.get((k, f), 0))
-    for name, arg in (("validate_child_parents_attrs", "&attrs.child_parents_attrs"), ("validate_where_attrs", "&attrs.where_attrs"), ("validate_error_instrs", "input")):
-        cs = list(calls(fi.body, name))
-        chk.expect("R1", f"{name}/called", len(cs) == 1 and render(cs[0]["args"][0]).replace(" ", "") == arg, VALIDATE, fi.line, "type-level rule not dispatched over the whole vector", found=[render(c)[:60] for c in cs])
+    for name, arg in (("validate_child_parents_attrs", ".child_parents_attrs"), ("validate_where_attrs", ".where_attrs"), ("validate_error_instrs", "input")):
+        cs = [c for c in common if c.startswith(name + "(")]
+        first = cs[0][len(name) + 1:].split(",")[0] if cs else ""
+        chk.expect("R1", f"{name}/called", len(cs) == 1 and first.endswith(arg), VALIDATE, fi.line, "type-level rule not dispatched over the whole vector", found=[c[:60] for c in cs])
 
 
 MEMBER_VALIDATORS = ["validate_member_error_instrs", "validate_dedicated_member_attrs"]
@@ -136,12 +164,23 @@ def r4(chk):
     repo = chk.repo
     chk.rule("R4", "aggregation: validate never exits before its final aggregation; documented misuse classes are not raised by an early Err elsewhere", floor=2)
     fi = repo.fn(VALIDATE, "validate")
-    early = [n for n in walk(fi.body) if n["k"] in ("Return", "Try")]
+    # an exit is "early" iff a rule still runs after it: compare with the last emission / dispatch site of validate (source order)
+    site_lines = []
+    for node in walk(fi.body):
+        if node["k"] == "MethodCall" and node["method"] == "insert" and render(node["recv"]).replace(" ", "").lstrip("*") == "errors":
+            site_lines.append(node["line"])
+        if node["k"] == "Call" and node["func"]["k"] == "Path" and any(render(a).replace(" ", "").replace("&mut", "").lstrip("*") == "errors" for a in node["args"]):
+            site_lines.append(node["line"])
+    if not site_lines:
+        raise Inconclusive("validate: no emission or dispatch site found")
+    last_site = max(site_lines)
+    early = [n for n in walk(fi.body) if n["k"] in ("Return", "Try") and n["line"] <= last_site]
     chk.expect("R4", "validate/no-early-exit", not early, VALIDATE, fi.line, "validate can return before all rules have run", found=[(n["k"], n["line"]) for n in early])
-    last = fi.body["stmts"][-1]
-    tail = render(last.get("expr")) if last["k"] == "ExprStmt" else ""
-    chk.expect("R4", "validate/aggregate-all", "errors.is_empty()" in tail and "combine" in tail and ("errors.iter()" in tail or "errors.into_iter()" in tail or "for " in tail), VALIDATE, last["line"],
-               "final step does not combine every collected diagnostic", found=tail[:100])
+    from ..src import render_stmt
+    tail = "".join(render_stmt(st).replace(" ", "") for st in fi.body["stmts"] if st["line"] > last_site)
+    good = "errors.is_empty()" in tail and "combine" in tail and re.search(r"errors\.(iter|into_iter)\(\)|in&?errors\b", tail) is not None
+    only_first = re.search(r"errors\.(iter|into_iter)\(\)\.(next|nth|take)\(|errors\.first\(|errors\.(iter|into_iter)\(\)\.(last|max|min)", tail) is not None and "combine" not in tail
+    chk.shape("R4", "validate/aggregate-all", good, only_first, VALIDATE, last_site, what="final step does not combine every collected diagnostic", found=tail[-160:])
     # every helper only ever inserts (never clears/removes) diagnostics
     for fn in repo.fns(VALIDATE):
         for m in method_calls(fn.body):
@@ -239,7 +278,12 @@ def r5(chk):
             chk.bad("R5", f"class[{cls}]", VALIDATE, 1, "validator fn missing", found=fn_name)
             continue
         hit = [s for s in ss if any(re.search(rx, g) for g in s[0])] if rx else ss
-        chk.expect("R5", f"class[{cls}]", bool(hit), VALIDATE, repo.fn(VALIDATE, fn_name).line, "no emission site guarded by this class's condition", expected=rx or "any", found=[s[0] for s in ss][:3])
+        # (the deciding rule for the guards is R9; this one only recognises the text of today's guard)
+        if hit:
+            chk.ok("R5", f"class[{cls}]", VALIDATE, repo.fn(VALIDATE, fn_name).line)
+        elif not ss:
+            chk.bad("R5", f"class[{cls}]", VALIDATE, repo.fn(VALIDATE, fn_name).line, "the validator of this misuse class emits no diagnostic at all", expected=rx or "any", found=[])
+        # else: today's guard text is not recognised; the guard sets themselves are decided by R9
     # reachability of the validators from validate
     fi = repo.fn(VALIDATE, "validate")
     called = {c["func"]["segs"][-1] for c in calls(fi.body)}
@@ -275,11 +319,26 @@ def r5(chk):
         key = f"validate_struct_attrs[fallible={f},err_ty={et},first_of_its_type={dup}]"
         chk.expect("R5", key, len(msgs) == n_exp, VALIDATE, lp["line"], "error-type / uniqueness rule fires for the wrong combination", expected=n_exp, found=msgs)
     # check_child_errors: every prefix of the path is checked
+    ok_, bad_, found_ = all_prefixes_verdict(repo)
+    chk.shape("R5", "check_child_errors/all-prefixes", ok_, bad_, VALIDATE, repo.fn(VALIDATE, "check_child_errors").line,
+              what="not every prefix of a child path is checked against child_parents", found=found_)
+
+
+def all_prefixes_verdict(repo):
+    """check_child_errors must look up EVERY prefix of the child path: a loop over all positions (enumerate() or 0..len()) that asks
+    get_child_path_str(Some(<position>)). Recognised-bad: only some positions (last / first / take / skip / 1.. / ..len()-1)."""
     fc = repo.fn(VALIDATE, "check_child_errors")
     loops = [n for n in walk(fc.body) if n["k"] == "For"]
-    it = render(loops[0]["iter"]).replace(" ", "") if loops else ""
-    chk.expect("R5", "check_child_errors/all-prefixes", bool(re.fullmatch(r"child_attr\.child_path\.child_path\.iter\(\)\.enumerate\(\)", it)) and "get_child_path_str(Some(idx))" in render(fc.body).replace(" ", ""),
-               VALIDATE, fc.line, "not every prefix of a child path is checked against child_parents", found=it)
+    its = [render(n["iter"]).replace(" ", "") for n in loops]
+    body = render(fc.body).replace(" ", "")
+    good = False
+    for n, it in zip(loops, its):
+        vars_ = [q["name"] for q in walk(n["pat"]) if q["k"] == "PIdent"]
+        if re.fullmatch(r"(\w+\.)*child_path(\.child_path)?\.iter\(\)\.enumerate\(\)", it) or re.fullmatch(r"0\.\.(\w+\.)*child_path(\.child_path)?\.len\(\)", it):
+            if any(f"get_child_path_str(Some({v}))" in body for v in vars_):
+                good = True
+    bad = not good and bool(re.search(r"\.last\(\)|\.first\(\)|\.take\(|\.skip\(|\b1\.\.|len\(\)-1|get_child_path_str\(None\)", body))
+    return good, bad, its
 
 
 def r7(chk):
@@ -352,8 +411,30 @@ def run(chk):
 
 
 # ---------------------------------------------------------------- R9: complete guard sets of the diagnostic emission sites
+def _kind_family(e):
+    """`k == Kind::FromOwned || k == Kind::FromRef` (any order) is Kind::is_from() written out; same for the other two families."""
+    if e["k"] != "Binary" or e["op"] != "||":
+        return None
+    sides = []
+    for x in (e["l"], e["r"]):
+        if x["k"] == "Binary" and x["op"] == "==":
+            a, b = render(x["l"]).replace(" ", ""), render(x["r"]).replace(" ", "")
+            if re.fullmatch(r"&?Kind::\w+", a):
+                a, b = b, a
+            if re.fullmatch(r"&?Kind::\w+", b):
+                sides.append((a.lstrip("&*"), b.lstrip("&").split("::")[1]))
+    if len(sides) == 2 and sides[0][0] == sides[1][0]:
+        fam = {frozenset(("FromOwned", "FromRef")): "is_from", frozenset(("OwnedIntoExisting", "RefIntoExisting")): "is_into_existing"}.get(frozenset(s_[1] for s_ in sides))
+        if fam:
+            return f"{sides[0][0]}.{fam}()"
+    return None
+
+
 def _conjuncts(e, neg=False):
     """Top-level conjuncts of condition e (negated: De Morgan over ||), each rendered without whitespace."""
+    fam = _kind_family(e)
+    if fam:
+        return [("!" if neg else "") + fam]
     if not neg and e["k"] == "Binary" and e["op"] == "&&":
         return _conjuncts(e["l"]) + _conjuncts(e["r"])
     if neg and e["k"] == "Binary" and e["op"] == "||":
@@ -408,10 +489,27 @@ def guard_sets(fn):
                     g += _conjuncts(p["cond"])
                 elif "else" in p and nxt is p["else"]:
                     g += _conjuncts(p["cond"], True)
-            elif p["k"] == "Arm":
-                g.append(("arm:" + render_pat(p["pat"])).replace(" ", "")[:90])
-                if "guard" in p:
-                    g += _conjuncts(p["guard"])
+            elif p["k"] == "Match":
+                arm = next((a for a in p["arms"] if a is nxt), None)
+                if arm is not None:
+                    g += _arm_conj(p, arm)
+            elif p["k"] == "Block":
+                # early exits that precede the site in the same block hold negated afterwards
+                for st in p["stmts"]:
+                    if st is nxt or st.get("expr") is nxt or st.get("init") is nxt:
+                        break
+                    e_ = st.get("expr") if st["k"] in ("ExprStmt", "Expr", "Semi") else None
+                    if e_ is not None and e_.get("k") == "If" and "else" not in e_ and _exits(e_["then"]):
+                        g += _conjuncts(e_["cond"], True)
+                    elif e_ is not None and e_.get("k") == "Match":
+                        stay = [a for a in e_["arms"] if not _exits(a["body"])]
+                        if len(stay) == 1 and len(e_["arms"]) > 1:
+                            g += _arm_conj(e_, stay[0])
+                    elif st["k"] == "Let" and isinstance(st.get("init"), dict) and st["init"].get("k") == "Match":
+                        m_ = st["init"]
+                        stay = [a for a in m_["arms"] if not _exits(a["body"])]
+                        if len(stay) == 1 and len(m_["arms"]) > 1:
+                            g += _arm_conj(m_, stay[0])
             elif p["k"] == "For" and nxt is p["body"]:
                 g += _chain_filters(p["iter"])
             elif p["k"] == "While" and nxt is p.get("body"):
@@ -420,7 +518,7 @@ def guard_sets(fn):
                 g += _chain_filters(p["recv"])
         msg = ""
         if is_call:
-            msg = "call:" + node["func"]["segs"][-1] + "(" + ",".join(render(a).replace(" ", "")[:24] for a in node["args"][:3])
+            msg = "call:" + node["func"]["segs"][-1]
             out.setdefault(msg[:64], []).append(sorted({_anon(c, bound) for c in g}))
             continue
         if node["args"]:
@@ -434,6 +532,37 @@ def guard_sets(fn):
                 msg = render(a0)
         out.setdefault(re.sub(r"\s+", " ", msg)[:48], []).append(sorted({_anon(c, bound) for c in g}))
     return {k: sorted(v) for k, v in out.items()}
+
+
+def _exits(b):
+    """Does block / expression b end by leaving the enclosing iteration or function (continue / return / break)?"""
+    if b is None:
+        return False
+    if b.get("k") in ("Return", "Continue", "Break"):
+        return True
+    sts = b.get("stmts")
+    if sts:
+        last = sts[-1]
+        return _exits(last.get("expr", last) if isinstance(last, dict) else None)
+    return False
+
+
+def _arm_conj(match, arm):
+    """The condition under which `arm` of `match` is taken, written like an if-let: let <pat> = <scrutinee> (a wildcard arm is the
+    negation of the other arms)."""
+    from ..src import render_pat
+    scrut = render(match["scrut"]).replace(" ", "")
+    pat = render_pat(arm["pat"]).replace(" ", "")
+    out = []
+    if pat in ("_", "None") and len(match["arms"]) == 2:
+        other = [a for a in match["arms"] if a is not arm][0]
+        opat = render_pat(other["pat"]).replace(" ", "")
+        out.append(f"!(let{opat}={scrut})" if pat == "_" or opat.startswith("Some(") else f"let{pat}={scrut}")
+    else:
+        out.append(f"let{pat}={scrut}"[:140])
+    if "guard" in arm:
+        out += _conjuncts(arm["guard"])
+    return out
 
 
 def _bound_names(fn):
@@ -466,46 +595,59 @@ def _anon(conj, bound):
     return re.sub(r"(?<![\w$.])[A-Za-z_]\w*(?!\w*!?\()(?![\w:])|(?<![\w$.])[A-Za-z_]\w*(?=\.)", sub, conj)
 
 
+def all_guard_sets(repo):
+    """{message or call:callee -> sorted list of guard sets} over every fn of validate.rs (a site may move between fns)."""
+    out = {}
+    for fi in repo.fns(VALIDATE):
+        for msg, sets in guard_sets(fi).items():
+            out.setdefault(msg, []).extend(sets)
+    return {k: sorted(v) for k, v in out.items()}
+
+
 def r9(chk):
     import json as _json
     import os as _os
     repo = chk.repo
-    chk.rule("R9", "the complete path condition of every diagnostic emission (if / if-let / match-arm conditions and the filters of all enclosing iterations) is the "
-                   "condition that defines its misuse class: an extra conjunct narrows the class (misuse next to some other instruction is no longer reported), "
-                   "a missing one rejects valid input", floor=30)
+    chk.rule("R9", "the complete path condition of every diagnostic emission (if / if-let / match-arm conditions, early exits before it, and the filters of all enclosing "
+                   "iterations) is the condition that defines its misuse class: an extra conjunct narrows the class (misuse next to some other instruction is no longer "
+                   "reported), a missing one rejects valid input", floor=30)
     ref_p = _os.path.join(_os.path.dirname(_os.path.dirname(_os.path.abspath(__file__))), "data", "c15_guards.json")
     with open(ref_p) as fh:
         ref = _json.load(fh)
+    cur = all_guard_sets(repo)
+    fline = repo.fn(VALIDATE, "validate").line
     n = 0
-    for fn_name, sites in sorted(ref.items()):
-        fi = repo.fn_opt(VALIDATE, fn_name)
-        if fi is None:
-            chk.inconc("R9", f"validator {fn_name} not found (renamed or removed)")
+    for msg, want_list in sorted(ref.items()):
+        key = f"emit[{msg}]"
+        got_list = cur.get(msg)
+        if got_list is None:
+            if msg.startswith("call:"):
+                chk.inconc("R9", f"{key}: the validator is no longer called with the diagnostics map (renamed, inlined or removed)")
+            else:
+                chk.bad("R9", key, VALIDATE, fline, "this diagnostic is no longer emitted anywhere in validate.rs: the misuse class it reports goes unreported", found="no errors.insert with this message")
             continue
-        cur = guard_sets(fi)
-        for msg, want_list in sorted(sites.items()):
-            key = f"{fn_name}[{msg}]"
-            got_list = cur.get(msg)
-            if got_list is None:
-                chk.inconc("R9", f"{key}: no emission site with this message in {fn_name} any more (message reworded or moved)")
-                continue
-            if len(got_list) != len(want_list):
-                chk.inconc("R9", f"{key}: {len(got_list)} emission sites, {len(want_list)} confirmed")
-                continue
-            for j, (want, got) in enumerate(zip(want_list, got_list)):
-                n += 1
-                k2 = key + (f"#{j}" if len(want_list) > 1 else "")
-                w, g = set(want), set(got)
-                if w == g:
-                    chk.ok("R9", k2, VALIDATE, fi.line)
-                elif w < g:
-                    chk.bad("R9", k2, VALIDATE, fi.line, "diagnostic is emitted under an additional condition: inputs of this misuse class for which it is false are no longer reported",
-                            expected=sorted(w), found={"extra_conditions": sorted(g - w)})
-                elif g < w:
-                    chk.bad("R9", k2, VALIDATE, fi.line, "a condition of this diagnostic was dropped: inputs outside the misuse class are now rejected",
-                            expected=sorted(w), found={"dropped_conditions": sorted(w - g)})
-                else:
-                    chk.inconc("R9", f"{k2}: guard set changed in a way the rule does not order (neither narrower nor wider): -{sorted(w - g)[:3]} +{sorted(g - w)[:3]}")
-        for msg in sorted(set(cur) - set(sites)):
-            chk.inconc("R9", f"{fn_name}[{msg}]: emission site not in the confirmed table")
+        if len(got_list) != len(want_list):
+            chk.inconc("R9", f"{key}: {len(got_list)} emission sites, {len(want_list)} confirmed")
+            continue
+        # pair each confirmed guard set with the most similar current one
+        remaining = list(got_list)
+        for j, want in enumerate(want_list):
+            w = set(want)
+            best = max(remaining, key=lambda g_: len(w & set(g_)) - 0.01 * len(w ^ set(g_)))
+            remaining.remove(best)
+            g = set(best)
+            n += 1
+            k2 = key + (f"#{j}" if len(want_list) > 1 else "")
+            if w == g:
+                chk.ok("R9", k2, VALIDATE, fline)
+            elif w < g:
+                chk.bad("R9", k2, VALIDATE, fline, "diagnostic is emitted under an additional condition: inputs of this misuse class for which it is false are no longer reported",
+                        expected=sorted(w), found={"extra_conditions": sorted(g - w)})
+            elif g < w:
+                chk.bad("R9", k2, VALIDATE, fline, "a condition of this diagnostic was dropped: inputs outside the misuse class are now rejected",
+                        expected=sorted(w), found={"dropped_conditions": sorted(w - g)})
+            else:
+                chk.inconc("R9", f"{k2}: guard set changed in a way the rule does not order (neither narrower nor wider): -{sorted(w - g)[:3]} +{sorted(g - w)[:3]}")
+    for msg in sorted(set(cur) - set(ref)):
+        chk.inconc("R9", f"emit[{msg}]: emission site not in the confirmed table")
     chk.unit("emission_sites_with_guard_sets", n)
